@@ -302,6 +302,9 @@ def exec_expr(e, st, names, fns, depth, want_value=False):
         return [(st, None)]
     if k == "macro" and e["p"] in ("debug_assert", "assert", "debug_assert_eq"):
         return [(st, None)]
+    if want_value and ((k == "call" and (e.get("f") or {}).get("e") == "path" and re.match(r"(?:\w+::)*SymbolicByteCode::\w+$", e["f"].get("p", ""))) or (k == "path" and re.match(r"(?:\w+::)*SymbolicByteCode::\w+$", e.get("p", "")))):
+        # `let fused = SymbolicByteCode::Invoke((slot, args));`: an instruction built ahead of the write
+        return [(st, eval_item(e, st, names))]
     if k == "match" and want_value:
         # `match instructions.read() { A => X, B => Y, .. }`: the instruction read is a window element whose variant the
         # pattern fixed, so one arm is selected
